@@ -279,6 +279,42 @@ def correspond(ctx, scale):
                     break
         except Exception as ex:
             fail(f'vq:attached-codebook:exception:{type(ex).__name__}', f'{via}: {ex!r}', dict(via=via))
+    # ------------------------------------------------------------------ STATELESS use: torch.func.functional_call with the parameters / buffers substituted by the
+    # caller's own tensors (the standard torch.func recipe), and a codebook re-parametrised with torch.nn.utils.parametrize: a learnable codebook
+    # receives the same gradient as in the ordinary stateful call
+    from torch.func import functional_call as _fcall
+    import torch.nn.utils.parametrize as _param
+    for ci in range(4 if not ctx.thorough else 12):
+        kw_f = [dict(rotation_trick=False), dict(rotation_trick=True), dict(rotation_trick=False, heads=2, codebook_dim=2, separate_codebook_per_head=True), dict(sync_update_v=0.2, rotation_trick=False)][ci % 4]
+        try:
+            vq_f = VectorQuantize(dim=4, codebook_size=5, learnable_codebook=True, ema_update=False, **kw_f)
+            vq_f.train()
+            xf = torch.randn(2, 3, 4, requires_grad=True)
+            o1, i1, l1 = vq_f(xf)
+            g_ref, = torch.autograd.grad(o1.pow(2).sum() + l1.sum(), vq_f._codebook.embed, allow_unused=True)
+            subs = {k_: v_.detach().clone().requires_grad_(v_.dtype.is_floating_point and k_.endswith('embed')) for k_, v_ in list(vq_f.named_parameters()) + list(vq_f.named_buffers())}
+            o2, i2, l2 = _fcall(vq_f, subs, (xf,))
+            g_sub, = torch.autograd.grad(o2.pow(2).sum() + l2.sum(), subs['_codebook.embed'], allow_unused=True)
+            ev += 1
+            dist['functional_call_codebook_grads'] = dist.get('functional_call_codebook_grads', 0) + 1
+            if (g_ref is None) != (g_sub is None) or (g_ref is not None and not torch.allclose(g_ref, g_sub, atol=1e-5, rtol=1e-4)):
+                fail('vq:functional-call:codebook-gradient', f'VectorQuantize(learnable, {kw_f}): under torch.func.functional_call with substituted tensors the learnable codebook receives '
+                     f'{"no gradient" if g_sub is None else "a different gradient"} (ordinary call: {"none" if g_ref is None else "norm %g" % float(g_ref.norm())})', dict(kw={k: str(v) for k, v in kw_f.items()}))
+            vq_p = VectorQuantize(dim=4, codebook_size=5, learnable_codebook=True, ema_update=False, **kw_f)
+            vq_p.train()
+
+            class _Id(torch.nn.Module):
+                def forward(self, w):
+                    return w * 1.0
+            _param.register_parametrization(vq_p._codebook, 'embed', _Id())
+            o3, i3, l3 = vq_p(xf)
+            leaf = vq_p._codebook.parametrizations.embed.original
+            g_par, = torch.autograd.grad(o3.pow(2).sum() + l3.sum(), leaf, allow_unused=True)
+            dist['parametrized_codebook_grads'] = dist.get('parametrized_codebook_grads', 0) + 1
+            if g_par is None or float(g_par.abs().max()) == 0.0:
+                fail('vq:parametrized-codebook:no-gradient', f'VectorQuantize(learnable, {kw_f}) with its codebook re-parametrised (torch.nn.utils.parametrize, identity): the codebook receives no gradient', dict(kw={k: str(v) for k, v in kw_f.items()}))
+        except Exception as ex:
+            fail(f'vq:functional-call:exception:{type(ex).__name__}', repr(ex), dict(kw={k: str(v) for k, v in kw_f.items()}))
     # ------------------------------------------------------------------ parameters frozen by the caller (requires_grad_(False): a frozen tokenizer behind a
     # trainable encoder): the gradient that reaches the INPUT is the same as with trainable parameters - whether anything else needs a gradient is
     # not a reason to skip the straight-through / rotation step
